@@ -180,6 +180,32 @@ func runC20(p *Prog, r *Report) {
 		}
 		r.Check(!leak, "R20.2-no-alias", q, p.pos(u.Pos()), "does not return the internal map", "method "+name+" returns the PolicySet's internal map itself: callers can then mutate the set behind its back")
 	}
+	// decoders replace the whole set: every map update in UnmarshalJSON goes to a map allocated in that call
+	if uj := p.fn(pRoot, "PolicySet.UnmarshalJSON"); uj != nil {
+		u := m.unitInfo[uj]
+		n := 0
+		for _, f := range withAnon(uj) {
+			forEachInstr(f, func(in ssa.Instruction) {
+				mu, ok := in.(*ssa.MapUpdate)
+				if !ok || u == nil {
+					return
+				}
+				n++
+				fresh := true
+				for l := range u.val(mu.Map).flat() {
+					if l.o.key.Kind != okSite {
+						fresh = false
+					}
+				}
+				r.Check(fresh, "R20.1-state", fnQual(uj)+":replaces-contents", p.pos(mu.Pos()), "decoded policies go into a map allocated by this call (the previous contents are replaced)", "UnmarshalJSON adds the decoded policies to a map that may be the set's previous one: decoding into a used set merges instead of replacing")
+			})
+		}
+		if n == 0 {
+			r.Undec("R20.1-state", fnQual(uj)+":replaces-contents", p.pos(uj.Pos()), "no map update found in the decoder")
+		}
+	} else {
+		r.Anchor("R20.1-state", "PolicySet.UnmarshalJSON")
+	}
 	// constructors install fresh maps: any function in the root package that stores into a PolicySet.policies field
 	for _, fn := range p.Funcs {
 		if fnPkgPath(fn) != pRoot {
@@ -407,8 +433,36 @@ func checkSortedIDs(p *Prog, r *Report) {
 			continue
 		}
 		n := stdName(f)
-		if n == "slices.Sort" || n == "sort.Strings" || n == "slices.SortFunc" || n == "sort.Slice" {
+		if n == "slices.Sort" || n == "sort.Strings" {
 			sortCall = c
+		}
+		if n == "slices.SortFunc" || n == "sort.Slice" || n == "slices.SortStableFunc" {
+			// a custom comparator: only a plain string comparison of the two ids is the documented order
+			plain := false
+			if len(c.Common().Args) == 2 {
+				var cmpFn *ssa.Function
+				switch x := c.Common().Args[1].(type) {
+				case *ssa.Function:
+					cmpFn = x
+				case *ssa.MakeClosure:
+					cmpFn, _ = x.Fn.(*ssa.Function)
+				}
+				if cmpFn != nil && len(cmpFn.Blocks) == 1 {
+					for _, cc := range callsIn(cmpFn) {
+						if g := cc.Common().StaticCallee(); g != nil && (stdName(g) == "strings.Compare" || stdName(g) == "cmp.Compare") {
+							a0, a1 := stripConv(cc.Common().Args[0]), stripConv(cc.Common().Args[1])
+							if a0 == ssa.Value(cmpFn.Params[0]) && a1 == ssa.Value(cmpFn.Params[1]) {
+								plain = true
+							}
+						}
+					}
+				}
+			}
+			if plain {
+				sortCall = c
+			} else {
+				r.Viol(rule, fnQual(fn)+":comparator", p.pos(c.Pos()), "policy ids are sorted with a custom comparator that is not the plain string comparison: the documented emission order is lexicographic by id")
+			}
 		}
 		if strings.HasPrefix(n, "(*bytes.Buffer).Write") {
 			writes = append(writes, c)
